@@ -217,6 +217,12 @@ func (e *Eng) runOnce(loopMods map[int]map[string]bool) map[int]map[string]bool 
 		}
 		e.assumeValAllocated(fr, st, fv.Type(), v)
 		fr.vals[fv] = v
+		// a captured variable that the enclosing function assigns exactly once (a parameter or a local set
+		// before the closure is made) and that only closures reading it share cannot change while the
+		// closure runs: it survives havocs like a private local
+		if pv, ok := v.(*PtrV); ok && pv.Kind == pCell && e.capturedOnceAssigned(fv) {
+			e.privLocals = append(e.privLocals, privLocal{nil, pv})
+		}
 	}
 	if e.fc != nil {
 		// captured variables named by the contract become extra (entry-valued) parameters of its clauses
@@ -753,7 +759,7 @@ func (e *Eng) loopHead(fr *Frame, li *loopInfo, st *State, loopMods map[int]map[
 	var keepLocals []privLocal
 	var keepVals []Val
 	for _, pl := range e.privLocals {
-		if !storedInLoop(pl.alloc, li) {
+		if pl.alloc == nil || !storedInLoop(pl.alloc, li) {
 			keepLocals = append(keepLocals, pl)
 			keepVals = append(keepVals, e.loadPtr(fr, st, pl.p, pl.p.Elem))
 		}
@@ -1673,4 +1679,51 @@ func (e *Eng) returnSites(fr *Frame, st *State, ret *ssa.Return) {
 		e.oblige(st, "assert", ss.Clause.Label, propsOf(ss.Clause, e), t, ret, fmt.Sprintf("assertion at return #%d: %s", ord, ss.Clause.Expr))
 		e.assume(st, t)
 	}
+}
+
+
+// capturedOnceAssigned: the free variable is bound, at every closure creation in the parent, to an Alloc
+// of the parent that is stored exactly once and whose address is otherwise only loaded or captured by
+// closures that only read it.
+func (e *Eng) capturedOnceAssigned(fv *ssa.FreeVar) bool {
+	parent := e.fn.Parent()
+	if parent == nil {
+		return false
+	}
+	idx := -1
+	for i, f := range e.fn.FreeVars {
+		if f == fv {
+			idx = i
+		}
+	}
+	if idx < 0 {
+		return false
+	}
+	if !readOnlyCapture(fv, 0) {
+		return false
+	}
+	found := false
+	for _, b := range parent.Blocks {
+		for _, in := range b.Instrs {
+			mc, ok := in.(*ssa.MakeClosure)
+			if !ok || mc.Fn != ssa.Value(e.fn) || idx >= len(mc.Bindings) {
+				continue
+			}
+			a, ok := mc.Bindings[idx].(*ssa.Alloc)
+			if !ok || !addrUsesPrivate(a, 0) {
+				return false
+			}
+			stores := 0
+			for _, r := range *a.Referrers() {
+				if st, ok := r.(*ssa.Store); ok && st.Addr == ssa.Value(a) {
+					stores++
+				}
+			}
+			if stores != 1 {
+				return false
+			}
+			found = true
+		}
+	}
+	return found
 }
